@@ -377,26 +377,35 @@ pub fn mk_side_cache(pd: u32, size: u64, total: u8, level: u8, assoc: u8, policy
         2 => hmat::CacheLevel::Two,
         _ => hmat::CacheLevel::Three,
     };
-    let a = match assoc {
+    let a = || match assoc {
         0 => hmat::Associativity::None,
         1 => hmat::Associativity::DirectMapped,
         _ => hmat::Associativity::Complex,
     };
-    let w = match policy {
+    let w = || match policy {
         0 => hmat::WritePolicy::None,
         1 => hmat::WritePolicy::Writeback,
         _ => hmat::WritePolicy::Writethrough,
     };
-    let mut c = hmat::MemorySideCache::new(pd, size, cl(total), cl(level), a, w, line);
-    for (k, h) in handles.iter().enumerate() {
-        if k == 1 {
-            crate::aml::build::peek(&c);
+    let mut c = hmat::MemorySideCache::new(pd, size, cl(total), cl(level), a(), w(), line);
+    let fill = |c: &mut hmat::MemorySideCache| {
+        for (k, h) in handles.iter().enumerate() {
+            if k == 1 {
+                crate::aml::build::peek(&*c);
+            }
+            c.add_smbios_handle(*h);
         }
-        c.add_smbios_handle(*h);
-    }
+    };
+    fill(&mut c);
     if handles.len() == 65_535 {
-        // the 65536th handle is refused (C18) and must leave the structure as it was
-        let _ = catch_unwind(AssertUnwindSafe(|| c.add_smbios_handle(0x7777)));
+        // The 65536th handle is refused (C18) and must leave the structure as it was. The attempt is
+        // made on a twin, which is the one judged if it refused there (a crate may also accept the
+        // call and refuse later, at serialisation: then the twin is dropped).
+        let mut twin = hmat::MemorySideCache::new(pd, size, cl(total), cl(level), a(), w(), line);
+        fill(&mut twin);
+        if catch_unwind(AssertUnwindSafe(|| twin.add_smbios_handle(0x7777))).is_err() {
+            return twin;
+        }
     }
     c
 }
@@ -658,34 +667,42 @@ pub fn mk_ghes2(id: u16, enabled: u8, sets: &[GhesSet]) -> hest::GenericHardware
 }
 
 pub fn mk_rqsc_ctl(ty: u8, reg: &GasV, rcid: u32, mcid: u32, flags: u16, res: &[RqscRes]) -> rqsc::QoSController {
-    let mut c = rqsc::QoSController::new(
-        if ty == 0 { rqsc::ControllerType::Capacity } else { rqsc::ControllerType::Bandwidth },
-        mk_gas(reg),
-        rcid,
-        mcid,
-        flags,
-    );
-    for r in res {
-        let id = match &r.id {
-            RqscId::Cache(v) => rqsc::ResourceID::Cache(rqsc::CacheResource::new(*v)),
-            RqscId::Mem(p, b) => rqsc::ResourceID::MemoryAffinityStructure(rqsc::MemoryAffinityStructureResource::new(*p, *b)),
-            RqscId::Acpi(h, u) => rqsc::ResourceID::ACPIDevice(rqsc::ACPIDeviceResource::new(*h, *u)),
-            RqscId::Pci(b) => rqsc::ResourceID::PCIDevice(rqsc::PCIDeviceResource::new(*b)),
-            RqscId::Vendor(t, d) => rqsc::ResourceID::VendorSpecific(*t, d.clone()),
-        };
-        c.add_resource(rqsc::ResourceStructure::new(
-            if r.ty == 0 { rqsc::ResourceType::Cache } else { rqsc::ResourceType::Memory },
-            r.flags,
-            id,
-        ));
-    }
-    // a resource that cannot fit the controller's 16-bit length is refused and must leave the
-    // controller as it was (injected on some controllers so that every table oracle sees it)
+    let build = || {
+        let mut c = rqsc::QoSController::new(
+            if ty == 0 { rqsc::ControllerType::Capacity } else { rqsc::ControllerType::Bandwidth },
+            mk_gas(reg),
+            rcid,
+            mcid,
+            flags,
+        );
+        for r in res {
+            let id = match &r.id {
+                RqscId::Cache(v) => rqsc::ResourceID::Cache(rqsc::CacheResource::new(*v)),
+                RqscId::Mem(p, b) => rqsc::ResourceID::MemoryAffinityStructure(rqsc::MemoryAffinityStructureResource::new(*p, *b)),
+                RqscId::Acpi(h, u) => rqsc::ResourceID::ACPIDevice(rqsc::ACPIDeviceResource::new(*h, *u)),
+                RqscId::Pci(b) => rqsc::ResourceID::PCIDevice(rqsc::PCIDeviceResource::new(*b)),
+                RqscId::Vendor(t, d) => rqsc::ResourceID::VendorSpecific(*t, d.clone()),
+            };
+            c.add_resource(rqsc::ResourceStructure::new(
+                if r.ty == 0 { rqsc::ResourceType::Cache } else { rqsc::ResourceType::Memory },
+                r.flags,
+                id,
+            ));
+        }
+        c
+    };
+    // A resource that cannot fit the controller's 16-bit length is refused and must leave the
+    // controller as it was. The attempt is made on a twin of some controllers, so that every table
+    // oracle sees an object that has refused something; the twin is judged only if it refused there
+    // (a crate may also accept the call and refuse the oversize controller later).
     if rcid % 4 == 1 {
+        let mut twin = build();
         let big = rqsc::ResourceStructure::new(rqsc::ResourceType::Memory, 7, rqsc::ResourceID::VendorSpecific(0x80, vec![0x5a; 65_500]));
-        let _ = catch_unwind(AssertUnwindSafe(|| c.add_resource(big)));
+        if catch_unwind(AssertUnwindSafe(|| twin.add_resource(big))).is_err() {
+            return twin;
+        }
     }
-    c
+    build()
 }
 
 pub const FADT_FLAGS: [fadt::Flags; 25] = [
@@ -1004,13 +1021,21 @@ impl Live {
                 t.add_fixed_memory(mk_cfmws(*base, *size, *arith, *gran, *ways, *qtg, restr, targets))
             }
             (Live::Cedt(t), Op::Cxims { gran, maps }) => {
-                let mut x = cedt::XorInterleaveMath::new(mk_gran(*gran));
-                for m in maps {
-                    x.add_xormap(*m);
-                }
+                let build = || {
+                    let mut x = cedt::XorInterleaveMath::new(mk_gran(*gran));
+                    for m in maps {
+                        x.add_xormap(*m);
+                    }
+                    x
+                };
+                let mut x = build();
                 if maps.len() == 255 {
-                    // the 256th map is refused (C18) and must leave the structure as it was
-                    let _ = catch_unwind(AssertUnwindSafe(|| x.add_xormap(0x7777)));
+                    // the 256th map is refused (C18) and must leave the structure as it was; attempted
+                    // on a twin, judged only if it refused there (see mk_side_cache)
+                    let mut twin = build();
+                    if catch_unwind(AssertUnwindSafe(|| twin.add_xormap(0x7777))).is_err() {
+                        x = twin;
+                    }
                 }
                 t.add_xor_interleave_math(x)
             }
